@@ -122,6 +122,61 @@ def run(payload):
                             break
                 except Exception as e:
                     fail("error", bc_kind=kind, route=route, error=f"{type(e).__name__}: {e}", where="value_update")
+    # ---- values linked to external arrays (integer and float arrays), updated in place between two uses
+    if sections is None or "linked_values" in sections:
+        grid = UnitGrid([3, 2])
+        for kind in ("value", "derivative", "mixed"):
+            for dtype in (int, float):
+                for route in ("numpy", "numba"):
+                    f = ScalarField(grid, rng.uniform(-1, 1, grid.shape))
+                    linked = np.array([4, 3], dtype=dtype)
+                    par = {"value": linked, "const": 1.5}
+                    spec = {"type": kind, "value": linked.astype(float)}
+                    if kind == "mixed":
+                        spec["const"] = par["const"]
+                    cases += 1
+                    try:
+                        bcs = grid.get_boundary_conditions({"x": spec, "y": "neumann"})
+                        for bc in bcs[0]:
+                            bc.link_value(linked)
+                        setter = (lambda: bcs.set_ghost_cells(f._data_full)) if route == "numpy" else (lambda s_=get_backend("numba").make_ghost_cell_setter(bcs): s_(f._data_full))
+                        for new in (None, [2, 5]):
+                            if new is not None:
+                                linked[:] = new
+                            setter()
+                            for up in (False, True):
+                                g, c1, c2, opp = ghost_and_cells(f._data_full, grid, 0, up, None)
+                                r = check(kind, g, c1, c2, opp, 1.0, par)
+                                if np.max(np.abs(r)) > 1e-10:
+                                    fail("condition_with_linked_value", bc_kind=kind, dtype=dtype.__name__, route=route, upper=up, updated=new is not None, residual=float(np.max(np.abs(r))))
+                    except Exception as e:
+                        fail("error", bc_kind=kind, route=route, error=f"{type(e).__name__}: {e}", where="linked_values")
+    # ---- condition objects for the two sides of an axis, linked to two arrays that hold equal numbers when the
+    #      conditions are collected and are updated afterwards
+    if sections is None or "linked_values" in sections:
+        from pde.grids.boundaries.local import DirichletBC, NeumannBC
+        grid = UnitGrid([3, 2])
+        for cls, kind in ((DirichletBC, "value"), (NeumannBC, "derivative")):
+            for route in ("numpy", "numba"):
+                cases += 1
+                try:
+                    f = ScalarField(grid, rng.uniform(-1, 1, grid.shape))
+                    v_lo, v_hi = np.zeros(2), np.zeros(2)
+                    b_lo = cls(grid, 0, upper=False, value=v_lo); b_lo.link_value(v_lo)
+                    b_hi = cls(grid, 0, upper=True, value=v_hi); b_hi.link_value(v_hi)
+                    bcs = grid.get_boundary_conditions({"x-": b_lo, "x+": b_hi, "y": "neumann"})
+                    v_lo[:] = [1.0, 2.0]; v_hi[:] = [10.0, 20.0]
+                    if route == "numpy":
+                        bcs.set_ghost_cells(f._data_full)
+                    else:
+                        get_backend("numba").make_ghost_cell_setter(bcs)(f._data_full)
+                    for up, v in ((False, v_lo), (True, v_hi)):
+                        g, c1, c2, opp = ghost_and_cells(f._data_full, grid, 0, up, None)
+                        r = check(kind, g, c1, c2, opp, 1.0, {"value": v})
+                        if np.max(np.abs(r)) > 1e-10:
+                            fail("side_uses_the_array_linked_to_the_other_side", bc_kind=kind, route=route, upper=up, residual=float(np.max(np.abs(r))))
+                except Exception as e:
+                    fail("error", bc_kind=kind, route=route, error=f"{type(e).__name__}: {e}", where="linked objects")
     # ---- every way of writing a periodic / anti-periodic axis
     if sections is None or "periodic_specs" in sections:
         grid = UnitGrid([4, 3], periodic=[True, False])
